@@ -43,14 +43,20 @@ class DeepcopyIsolation(Harness):
         self.bounds = {"items": f"0..{maxn}"}; self.symbolic = ["item values", "new values"]; self.choice_dims = ["length", "which side is edited"]
     def build(self, ctx):
         n = choice("n", range(self.maxn + 1))
-        return {"data": LoD(mk_items(ctx, n, ["k"])), "edit": choice("edit", ["copy", "original"]),
-                "values": [SymPyInt(symx.sym_i64(f"nv{i}")) for i in range(n)]}
+        inp = {"data": LoD(mk_items(ctx, n, ["k"])), "edit": choice("edit", ["copy", "original"]),
+               "values": [SymPyInt(symx.sym_i64(f"nv{i}")) for i in range(n)]}
+        nested = choice("nested", [None, "tuple", "list", "dict"])
+        if nested: inp["nested"] = nested
+        if choice("how", ["method", "copy.deepcopy"]) != "method": inp["how"] = "copy.deepcopy"
+        return inp
     def spec(self, inp, out):
         if isinstance(out, Raised): return [(f"does not raise ({out.type})", T(False))]
         before = [dict(x) for x in inp["data"].items]
         cl = [("the other side keeps its items", T(len(out["untouched"]) == len(before)))]
         for a, b in zip(out["untouched"], before):
             cl.extend(same_item(a, b, f"item {b['id']} of the side that was not edited"))
+        if inp.get("nested"):
+            cl.append((f"an edit inside a nested {inp['nested']} value on one side is not seen on the other", T(out.get("nested_untouched") is True)))
         if inp["edit"] == "copy":
             cl.append(("editing a deep copy does not mark the original obsolete", T(not out["data_obsolete"])))
         else:
